@@ -289,10 +289,8 @@ func (idx *IVFIndex) Add(vector VectorNode) error {
 
 // Remove performs soft delete using roaring bitmap.
 //
-// CONCURRENCY OPTIMIZATION:
-// - Uses read lock first (cheaper) to check if node exists
-// - Only acquires write lock for the actual bitmap modification
-// - Minimizes write lock contention
+// CONCURRENCY:
+// - Checks and marks under one write lock, so that a concurrent Flush or Remove cannot slip in between
 //
 // SOFT DELETE MECHANISM:
 // Instead of immediately removing from inverted lists (expensive O(n)),
@@ -316,9 +314,13 @@ func (idx *IVFIndex) Remove(vector VectorNode) error {
 	id := vector.ID()
 
 	// ════════════════════════════════════════════════════════════════════════
-	// STEP 1: CHECK EXISTENCE (READ LOCK - CHEAPER)
+	// STEP 1: CHECK EXISTENCE
 	// ════════════════════════════════════════════════════════════════════════
-	idx.mu.RLock()
+	// Check and mark under one write lock: with the check under a read lock and the
+	// mark under a later write lock, a Flush in between left a tombstone for an ID that
+	// no longer exists, and two concurrent removers of one ID both succeeded
+	idx.mu.Lock()
+	defer idx.mu.Unlock()
 	exists := false
 	for _, list := range idx.lists {
 		for _, v := range list {
@@ -332,9 +334,8 @@ func (idx *IVFIndex) Remove(vector VectorNode) error {
 		}
 	}
 	alreadyDeleted := idx.deletedNodes.Contains(id)
-	idx.mu.RUnlock()
 
-	// Fast-fail validation outside of write lock
+	// Fast-fail validation
 	if !exists {
 		return fmt.Errorf("vector with ID %d not found", id)
 	}
@@ -343,11 +344,9 @@ func (idx *IVFIndex) Remove(vector VectorNode) error {
 	}
 
 	// ════════════════════════════════════════════════════════════════════════
-	// STEP 2: MARK AS DELETED (WRITE LOCK - ONLY FOR BITMAP UPDATE)
+	// STEP 2: MARK AS DELETED
 	// ════════════════════════════════════════════════════════════════════════
-	idx.mu.Lock()
 	idx.deletedNodes.Add(id)
-	idx.mu.Unlock()
 
 	return nil
 }
